@@ -155,7 +155,7 @@ def canon_reply(r):
     if r[0] == 'exc':
         return ('exc', r[1])
     if r[0] == 'fuel':
-        return ('fuel',)
+        return ('fuel', 'model')
     if r[0] == 'unsupported':
         return ('unsupported',)
     return ('error',) + tuple(r)
@@ -237,8 +237,12 @@ class Impl:
         try:
             with time_limit(self.budget):
                 html = self.rimu.render(src, opts)
-        except (RecursionError, BudgetExceeded, MemoryError):
-            return ('fuel',)
+        except RecursionError:
+            return ('fuel', 'RecursionError')
+        except MemoryError:
+            return ('fuel', 'MemoryError')
+        except BudgetExceeded:
+            return ('fuel', 'budget')
         except Exception as e:  # noqa
             return ('exc', EXC_KIND.get(type(e).__name__, type(e).__name__))
         if not isinstance(html, str):
